@@ -44,9 +44,14 @@ class Kernel:
 
 def set_capacity(cap: int | None) -> None:
     """Initial capacity of growable output arrays (outside hook: module attribute of the tree under test)."""
-    import tensora.iteration_graph.outputs._append as ap
-    from tensora.ir.ast import IntegerLiteral, Multiply
+    try:
+        import tensora.iteration_graph.outputs._append as ap
+        from tensora.ir.ast import IntegerLiteral, Multiply
 
+        if not hasattr(ap, "default_array_size"):
+            return   # the tree no longer has this knob: kernels keep their own initial capacity
+    except ImportError:
+        return
     if cap:
         ap.default_array_size = IntegerLiteral(cap)
     else:
